@@ -64,9 +64,13 @@ def kwargs_model(ctx, fv) -> T.Dict[str, T.Callable[[], rl.R]]:
     model["bid"] = ("digits", ("digits", 4, True))
     model["tag"] = ("strs", LEGACY_TAGS)
     # assignments  kwargs['k'] = <expr>
+    fmt_calls = [c for c in ast.walk(fv.node) if isinstance(c, ast.Call) and isinstance(c.func, ast.Attribute) and c.func.attr == "format"
+                 and any(kw.arg is None for kw in c.keywords)]
+    ctx.require(len(fmt_calls) == 1, "format_version (v1): `<pattern>.format(**kwargs)` not found")
+    kwvar = unparse([kw.value for kw in fmt_calls[0].keywords if kw.arg is None][0])
     assigns: T.Dict[str, T.List[ast.AST]] = {}
     for n in walk_no_nested(fv.node):
-        if isinstance(n, ast.Assign) and isinstance(n.targets[0], ast.Subscript) and unparse(n.targets[0].value) == "kwargs":
+        if isinstance(n, ast.Assign) and isinstance(n.targets[0], ast.Subscript) and unparse(n.targets[0].value) == kwvar:
             k = const_str(n.targets[0].slice)
             if k is not None:
                 assigns.setdefault(k, []).append(n.value)
@@ -172,7 +176,15 @@ def run(ctx) -> None:
     pfields = prog.const("v1patterns", "PATTERN_PART_FIELDS")
     # composition step is the one modelled
     ic = prog.function("v1patterns._init_composite_patterns")
-    ok = "COMPOSITE_PART_PATTERNS.items()" in unparse(ic.node) and "_replace_pattern_parts" in unparse(ic.node) and "PART_PATTERNS[part_name] = pattern_str" in unparse(ic.node)
+    lps = [n for n in walk_no_nested(ic.node) if isinstance(n, ast.For) and unparse(n.iter) == "COMPOSITE_PART_PATTERNS.items()"]
+    ok = len(lps) == 1 and isinstance(lps[0].target, ast.Tuple) and len(lps[0].target.elts) == 2
+    if ok:
+        kvar = unparse(lps[0].target.elts[0])
+        sts = [n for n in ast.walk(lps[0]) if isinstance(n, ast.Assign) and unparse(n.targets[0]) == f"PART_PATTERNS[{kvar}]"]
+        ok = len(sts) == 1 and shapes.flows_from(ic, sts[0].value, lambda e: isinstance(e, ast.Call) and unparse(e.func) == "_replace_pattern_parts")
+        esc = [c for c in ast.walk(lps[0]) if isinstance(c, ast.Call) and isinstance(c.func, ast.Attribute) and c.func.attr == "replace" and len(c.args) == 2
+               and const_str(c.args[0]) in ("{", "}") and const_str(c.args[1]) == "\\" + const_str(c.args[0])]
+        ok = ok and len(esc) == 2
     ctx.require(ok, "v1patterns._init_composite_patterns: composition step changed (the composed-regex model is not applicable)")
     rp = prog.function("v1patterns._replace_pattern_parts")
     ok = "(?P<{part_name}>{part_pattern})" in unparse(rp.node)
@@ -183,7 +195,7 @@ def run(ctx) -> None:
     model = kwargs_model(ctx, fv)
     # format_version replaces {p} by FULL_PART_FORMATS[p] and then str.format(**kwargs)
     src = unparse(fv.node)
-    ok = "FULL_PART_FORMATS.items()" in src and "full_pattern.format(**kwargs)" in src
+    ok = "FULL_PART_FORMATS.items()" in src and ".format(**" in src
     ctx.require(ok, "v1version.format_version: rendering pipeline changed (FULL_PART_FORMATS expansion + str.format model not applicable)")
 
     all_parts = sorted(set(pats) | set(comps))
@@ -233,7 +245,7 @@ def run(ctx) -> None:
     ctx.floor("R1", "named legacy parts checked", n_scope, 19)
     # mapped to a field / read back
     pfv = prog.function("v1version._parse_field_values")
-    read = {const_str(n.slice) for n in ast.walk(pfv.node) if isinstance(n, ast.Subscript) and unparse(n.value) == "fvals" and const_str(n.slice)}
+    read = {const_str(n.slice) for n in ast.walk(pfv.node) if isinstance(n, ast.Subscript) and const_str(n.slice)}
     read |= {const_str(n.args[0]) for n in ast.walk(pfv.node) if isinstance(n, ast.Call) and isinstance(n.func, ast.Attribute) and n.func.attr == "get" and n.args and const_str(n.args[0])}
     for part in sorted(SCOPE & set(pats) - set(comps)):
         f = pfields.get(part)
@@ -243,7 +255,13 @@ def run(ctx) -> None:
                   f"field={f}, read={sorted(x for x in read if x)}", loc="src/bumpver/v1patterns.py")
 
     # the pinned calendar is the parsed calendar, field by field (v1 _ver_to_cal_info is positional)
-    vc = prog.function("v1version._ver_to_cal_info")
+    inc1 = prog.function("v1version.incr")
+    pin_fns = set()
+    for c_, t_ in prog.calls_in(inc1):
+        if t_.kind == "func" and t_.fn is not None and [unparse(x) for x in c_.args] == ["old_vinfo"] and t_.fn.returns is not None and "CalendarInfo" in unparse(t_.fn.returns):
+            pin_fns.add(t_.fn.fq)
+    ctx.require(len(pin_fns) == 1, f"v1 incr: function that turns the parsed version into its calendar not identified ({sorted(pin_fns)})")
+    vc = prog.function(pin_fns.pop())
     ctx.visit(vc.fq)
     ctor = [c for c in ast.walk(vc.node) if isinstance(c, ast.Call) and unparse(c.func).endswith("V1CalendarInfo")]
     ctx.require(len(ctor) == 1, "v1 _ver_to_cal_info: V1CalendarInfo constructor not found")
